@@ -27,6 +27,8 @@ for pid in sys.argv[1:]:
         if not (os.path.exists(patch) and os.path.exists(dem)):
             continue
         mid = f'{pid}{letter}'
+        if os.path.exists(os.path.join(HERE, 'seeded', mid, 'patch.diff')):
+            print(mid, 'already kept'); continue
         d = tempfile.mkdtemp(prefix='sfconf', dir='/var/tmp')
         try:
             run(['rsync', '-a', '--exclude', '.git', '--exclude', '__pycache__', '--exclude', 'doc', '/repo/', d + '/'])
